@@ -14,6 +14,30 @@ SKIP_FNS = ("parser::ParserState::handle_unknown_taggedstruct_tag", "parser::Par
 HUT = "parser::ParserState::<'a>::handle_unknown_taggedstruct_tag"
 
 
+CURSOR_OPS = re.compile(r"parser::(ParserState::(get_token|undo_get_token|set_tokenpos|get_tokenpos|peek_token|expect_token)|TokenIter::(next|back|peek))$")
+
+
+def skip_table(prog):
+    """cursor operations (consume / step back / restore) and counter steps of the skipping code with their control predicates"""
+    from . import sym, guards
+    A = sym.Analyzer(prog, opaque=[r"parser::.*"])
+    fids = [f for f in prog.bodies if mir.strip_generics(f) in SKIP_FNS]
+
+    def eff(b, S, ev):
+        nm = mir.strip_generics(ev[1])
+        if CURSOR_OPS.search(nm):
+            return "cursor " + nm.split("::")[-1]
+        return None
+    t = diag.table_for(prog, A, fids, eff)
+    for fid in fids:
+        rows = diag.cursor_rows(prog, A, fid)
+        if rows:
+            have = t.setdefault(mir.strip_generics(fid), [])
+            have.extend(rows)
+            have.sort(key=lambda r: (r[0], r[1]))
+    return t
+
+
 def run(chk):
     genrules.r04_grammar(chk, rule="R07-grammar-aux", slot_rule="R07-aux-slot", stop_rule="R07-stop")
     chk.findings = [f for f in chk.findings if f.rule in ("R07-stop",)]
@@ -21,6 +45,7 @@ def run(chk):
     prog = mir.prog()
     diag.compare(chk, "R07-skip", "parser", c06.parser_table(prog), "diagnostics and hard-error exits of the unknown-element skipping code with their control predicates, compared with the reviewed table",
                  floor=4, fn_filter=lambda fn: fn in SKIP_FNS)
+    diag.compare(chk, "R07-cursor", "skip", skip_table(prog), "token-cursor operations (consume, step back) and nesting-counter steps of the unknown-element skipping code with their control predicates, compared with the reviewed table", floor=8)
     # R07-once
     b = prog.bodies.get(HUT)
     n = 0
